@@ -6,9 +6,12 @@ props="$@"; [ -z "$props" ] && props=${id%%-*}
 cd /repo || exit 2
 if [ -n "$(git status --porcelain)" ]; then echo "/repo is not clean"; exit 2; fi
 git apply /verif/seeded/$id/patch.diff || exit 2
+# evidence of a deliberately broken tree must not replace the evidence of the real one
+export QEDVC_EVIDENCE_DIR=$(mktemp -d /tmp/qedvc-seed-evidence.XXXXXX)
 for p in $props; do
   out=$(/verif/bin/qedvc check -property $p -tier quick 2>&1)
   echo "$out" | grep "^VIOLATION\|^KNOWN\|UNDECIDED" | sed 's/replay=.verif.replays./ /' | cut -c1-200 | sed "s/^/  [$id on $p] /"
   echo "$out" | tail -1 | sed "s/^/  [$id on $p] /"
 done
 git checkout -- . && git status --porcelain | head -3
+rm -rf "$QEDVC_EVIDENCE_DIR"
